@@ -39,6 +39,14 @@ pub struct ServerWorld {
     pub avoid: BTreeMap<usize, bool>,
     /// per node: (version id, urgency) of accepted add_versions whose snapshot decision is pending
     pub expect_snapshot: BTreeMap<usize, Option<(Uuid, bool)>>,
+    /// real backends (family D): add_version calls whose outcome was never learnt
+    pub maybes: Vec<crate::fam_d::Maybe>,
+    /// real backends: snapshots stored (acknowledged) / possibly stored
+    pub snapshots_stored: Vec<(Uuid, Vec<u8>)>,
+    pub snapshots_maybe: Vec<(Uuid, Vec<u8>)>,
+    /// apply the wire-format / snapshot-content oracles to what passes through a proxy
+    pub check_format: bool,
+    pub check_snapshots: bool,
 }
 
 impl ServerWorld {
@@ -53,6 +61,11 @@ impl ServerWorld {
             counters: BTreeMap::new(),
             avoid: BTreeMap::new(),
             expect_snapshot: BTreeMap::new(),
+            maybes: Vec::new(),
+            snapshots_stored: Vec::new(),
+            snapshots_maybe: Vec::new(),
+            check_format: true,
+            check_snapshots: true,
         }
     }
     fn count(&mut self, k: &'static str) {
